@@ -135,11 +135,31 @@ var (
 	lpAtLimit     = sim.RegStat("probe:loop-op-started-at-dispatch-limit")
 	lpCancelled   = sim.RegStat("probe:loop-op-cancelled")
 	lpCrossClose  = sim.RegStat("probe:loop-handler-closed-other-object")
+	lpDataWithEOF = sim.RegStat("probe:loop-adapter-reader-returns-last-bytes-with-eof")
 	lpCrossCancel = sim.RegStat("probe:loop-handler-cancelled-other-object")
 	lpBoth        = sim.RegStat("probe:loop-read-and-write-in-flight-together")
 	lpErrDone     = sim.RegStat("probe:loop-op-completed-with-error")
 	lpAllMulti    = sim.RegStat("probe:loop-*All-needed-several-wakeups")
 )
+
+// dataWithEOF wraps the adapted conn the way tls.Conn behaves: when the end of the stream is already
+// known (FIN received, nothing more queued) the read that returns the last bytes returns io.EOF with them.
+type dataWithEOF struct {
+	c   *shimnet.SimConn
+	end func() *sim.TCPEnd
+}
+
+func (d *dataWithEOF) Read(p []byte) (int, error) {
+	n, err := d.c.Read(p)
+	if err == nil && n > 0 {
+		if e := d.end(); e != nil && e.FinReceived() && e.RecvQueued() == 0 {
+			return n, io.EOF
+		}
+	}
+	return n, err
+}
+func (d *dataWithEOF) Write(p []byte) (int, error) { return d.c.Write(p) }
+func (d *dataWithEOF) Close() error                { return d.c.Close() }
 
 func newLoop(c *Ctx) *loop {
 	ioc, err := sonic.NewIO()
@@ -219,7 +239,14 @@ func (s *loop) addObj(k lKind) *lObj {
 		}
 		al.Close()
 		o.conn = nc.(*shimnet.SimConn)
-		sonic.NewAsyncAdapter(s.ioc, o.conn, o.conn, func(err error, a *sonic.AsyncAdapter) {
+		var rw io.ReadWriter = o.conn
+		if w.Chance(1, 2) {
+			// an io.Reader may return the last bytes together with the error that follows them; tls.Conn
+			// (what the websocket client adapts for wss://) does so when close_notify is queued behind data
+			w.Stat(lpDataWithEOF)
+			rw = &dataWithEOF{c: o.conn, end: func() *sim.TCPEnd { return w.K.EndOf(o.conn.Fd()) }}
+		}
+		sonic.NewAsyncAdapter(s.ioc, o.conn, rw, func(err error, a *sonic.AsyncAdapter) {
 			if err != nil {
 				sim.Bug("NewAsyncAdapter: %v", err)
 			}
@@ -548,6 +575,10 @@ func (s *loop) checkCompletion(op *lOp) {
 			}
 			if op.err != nil && int64(op.n) > moved {
 				c.Failf("count-exceeds-transferred/"+name, "op %d failed (%v) reporting n=%d, the kernel moved only %d bytes", op.id, op.err, op.n, moved)
+			}
+			if op.err != nil && int64(op.n) < moved {
+				// bytes taken out of the stream and not reported can never be delivered any more
+				c.Failf("bytes-consumed-but-not-reported/"+name, "op %d failed (%v) reporting n=%d although %d bytes of the stream were moved into the caller's buffer: the other %d are lost to the application", op.id, op.err, op.n, moved, moved-int64(op.n))
 			}
 		}
 		if op.err != nil && !o.peerFin && !o.peerClosed && !o.peerRst && !o.fdGone {
